@@ -541,6 +541,100 @@ pub fn run_history<V: Visitor>(h: &History, force_fault: bool, v: &mut V) -> Res
         FamId::Ed => go!(ed25519_dalek::SigningKey),
         FamId::CombinedSecp | FamId::CombinedEd => go!(enr::CombinedKey),
         FamId::Var | FamId::Wide => go!(VarKey),
-        FamId::Tiny => go!(crate::keys::TinyKey),
+        FamId::Tiny | FamId::Mid => go!(crate::keys::TinyKey),
+    }
+}
+
+// ---------------------------------------------------------------------------------------------
+// blind mode: apply a history WITHOUT observing the record in between (no accessor, encoder or
+// formatter is called), then observe "cold".  Observation itself can hide state the library caches
+// lazily; a blind run sees what a caller sees who only applies updates.
+
+#[derive(Clone, Debug)]
+pub struct Cold {
+    /// text form, size and encoding taken FIRST (in this order, or encoding first), before any other accessor
+    pub text: String,
+    pub size: usize,
+    pub enc: Vec<u8>,
+    pub snap: Snap,
+}
+
+fn run_blind_typed<K: Fam>(h: &History, upto: usize, enc_first: bool) -> Result<Option<(Vec<CallRes>, Cold)>, String> {
+    let fam_of = |i: usize| -> FamId {
+        if h.alt_keys.contains(&i) {
+            match h.fam {
+                FamId::CombinedSecp => FamId::CombinedEd,
+                FamId::CombinedEd => FamId::CombinedSecp,
+                f => f,
+            }
+        } else {
+            h.fam
+        }
+    };
+    if h.keys.is_empty() || h.keys.iter().enumerate().any(|(i, s)| !fam_of(i).secret_ok(&s.0)) || h.alt_keys.contains(&0) {
+        return Ok(None);
+    }
+    let real: Vec<K> = h.keys.iter().enumerate().map(|(i, s)| K::make(fam_of(i), &s.0)).collect();
+    keys::fault_reset(h.fault_at);
+    let enr: Option<Enr<K>> = match &h.init {
+        Init::Builder { calls } if calls.is_empty() && h.ops.len() % 2 == 1 => guarded(|| Enr::<K>::empty(&real[0])).ok().and_then(|r| r.ok()),
+        Init::BuilderReuse { calls, first } => run_builder2::<K>(calls, real.get(*first), &real[0]).ok().and_then(|r| r.ok()),
+        Init::Builder { calls } => run_builder::<K>(calls, &real[0]).ok().and_then(|r| r.ok()),
+        Init::Decoded { seq, pairs } => {
+            let bytes = decoded_init_bytes(h.fam, &h.keys[0].0, *seq, pairs);
+            guarded(|| Enr::<K>::decode(&mut bytes.as_slice())).ok().and_then(|r| r.ok())
+        }
+    };
+    let mut enr = match enr {
+        Some(e) => e,
+        None => return Ok(None),
+    };
+    let mut results = Vec::new();
+    for op in h.ops.iter().take(upto) {
+        if let Some(k) = op.signer() {
+            if k >= real.len() {
+                return Ok(None);
+            }
+        }
+        if let Op::SetPublicKey { pk_of, .. } = op {
+            if *pk_of >= real.len() {
+                return Ok(None);
+            }
+        }
+        // Redecode observes by construction (it encodes); keep it, it is part of the history
+        let r = apply_op(&mut enr, op, &real);
+        let stop = matches!(r, CallRes::Panic(_));
+        results.push(r);
+        if stop {
+            return Ok(None);
+        }
+    }
+    let cold = guarded(|| {
+        let (text, size, enc);
+        if enc_first {
+            enc = alloy_rlp::encode(&enr);
+            size = enr.size();
+            text = enr.to_base64();
+        } else {
+            text = enr.to_base64();
+            size = enr.size();
+            enc = alloy_rlp::encode(&enr);
+        }
+        Cold { text, size, enc, snap: snap(&enr) }
+    })
+    .map_err(|p| format!("observing the record after a blind run panicked: {p}"))?;
+    Ok(Some((results, cold)))
+}
+
+/// Blind run of the first `upto` operations of `h`, then a cold observation.  None = the history
+/// cannot be run (invalid keys, no initial record, a panic: other checks deal with those).
+pub fn run_blind(h: &History, upto: usize, enc_first: bool) -> Result<Option<(Vec<CallRes>, Cold)>, String> {
+    match h.fam {
+        FamId::K256 => run_blind_typed::<k256::ecdsa::SigningKey>(h, upto, enc_first),
+        FamId::Libsecp => run_blind_typed::<secp256k1::SecretKey>(h, upto, enc_first),
+        FamId::Ed => run_blind_typed::<ed25519_dalek::SigningKey>(h, upto, enc_first),
+        FamId::CombinedSecp | FamId::CombinedEd => run_blind_typed::<enr::CombinedKey>(h, upto, enc_first),
+        FamId::Var | FamId::Wide => run_blind_typed::<VarKey>(h, upto, enc_first),
+        FamId::Tiny | FamId::Mid => run_blind_typed::<crate::keys::TinyKey>(h, upto, enc_first),
     }
 }
